@@ -8,6 +8,8 @@ let handle (f : string list) : string =
   | ["C22.lookupfunc"; t; sc] -> opt (c22_lookupfunc (bytes_of_hex t) (bytes_of_hex sc))
   | ["C22.lookup"; t; ns] -> opt (c22_lookup (bytes_of_hex t) (bytes_of_hex ns))
   | ["C22.import"; i; p] -> opt (c22_import (bytes_of_hex i) (bytes_of_hex p))
+  | ["C23.history"; fs; ops] -> opt (c23_history (bytes_of_hex fs) (bytes_of_hex ops))
+  | ["C23.valid"; fs; x] -> opt (c23_valid (bytes_of_hex fs) (bytes_of_hex x))
   | _ -> "driver-error:unknown-command"
 
 let () = main_loop handle
